@@ -136,6 +136,12 @@ func executeRuntime(sc Script, rep *kit.Report) error {
 		rep.Discard("not-one-parameter")
 		return nil
 	}
+	if sc.Fall {
+		// programs with a path that does not return are decided by TestC19 (rejected, or
+		// accepted with a module that validates); they are never executed
+		rep.Class("fallthrough-program-skipped")
+		return nil
+	}
 	pr := newPrinter(avoid)
 	src := pr.program(&sc) + "in_ch -> " + funcName + "{} -> out_ch\n"
 	static := pr.static
